@@ -7,7 +7,7 @@
 From Coq Require Import List PArith ZArith Bool String.
 From SV Require Import SM.Store SM.StoreProofs SM.StoreCert SM.StoreCertProofs SM.StoreCopy SM.StoreCopyProofs
   SM.StoreExamples SM.KvAdd SM.KvAddProofs SM.StoreCopySrc SM.StoreCopySrcProofs SM.KvAddFresh SM.KvAddFreshProofs
-  SM.StoreCopyExport SM.StoreCopyExportProofs SM.OpPurity SM.OpPurityProofs SM.CollapseCensus SM.CollapseCensusProofs
+  SM.StoreCopyExport SM.StoreCopyExportProofs SM.StoreCopyFlow SM.StoreCopyFlowProofs SM.StoreCopyWholeProofs SM.StoreRowCert SM.StoreRowCertProofs SM.StoreExportCert SM.StoreExportCertProofs SM.OpPurity SM.OpPurityProofs SM.CollapseCensus SM.CollapseCensusProofs
   Gen.CopyCensus_gen Gen.CopyExportReads_gen Gen.C09OpCensus_gen Gen.C09Collapse_gen.
 Import ListNotations.
 
@@ -323,3 +323,226 @@ Theorem c09_collapse_template_enter_refuted :
     steps (h1, [1%positive]) [MStore 2%positive [VAtom 128%Z]] (h2, [1%positive]) /\
     unfold 1 h2 (VRef 2%positive) <> unfold 1 cl_h (VRef 2%positive).
 Proof. exact collapse_template_enter_observable. Qed.
+
+(** ROUND 3 — ARGUMENT FLOWS THROUGH THE CONSTRUCTOR.  [flows_X] (Gen/CopyCensus_gen.v): for every field of the copy, how
+    the original's fields flow into it through the constructor SPECIALISED to the call copy() makes (defaults of the
+    parameters not given, the constructor's conditionals partially evaluated, properties of the source class inlined).
+    [copy_args_lossless] (instance obligation per class): a field that is carried over is fed by its own field and by
+    nothing else, through value-preserving steps only; a field that is not carried over is not computed from the
+    original at all. *)
+Theorem c09_derived_field_complete_iff : forall g : Z -> Z,
+  (forall z, field_complete g z) <-> (forall z, g z = z).
+Proof. exact derived_field_complete_iff. Qed.
+
+Theorem c09_args_lossless_rows : forall c fl, copy_args_lossless c fl = true ->
+  forall f k w, In (f, k, w) c -> needs_source w = true ->
+  (forall g m, In (g, m) (flows_of fl f) -> g = f /\ flow_harmless_for k m = true) /\
+  (exists g m, In (g, m) (flows_of fl f) /\ flow_carries m = true).
+Proof. exact lossless_rows. Qed.
+
+(** For an immutable scalar field (str / int / float / bool: [KImm]) the admitted flow modes are complete for EVERY
+    value of the original, the falsy ones included ([p or default] is not admitted there). *)
+Theorem c09_imm_flow_complete : forall m d g z,
+  flow_harmless_for KImm m = true -> field_complete (flow_fun m d g) z.
+Proof. exact imm_flow_complete. Qed.
+
+Theorem c09_args_lossless_missing_reads_nothing : forall c fl, copy_args_lossless c fl = true ->
+  forall f k, In (f, k, HMissing) c -> flows_of fl f = [].
+Proof. exact lossless_missing_reads_nothing. Qed.
+
+(** Every admitted flow mode is complete on every truthy value, whatever a lossy path would compute ... *)
+Theorem c09_harmless_flow_complete : forall m d g z,
+  flow_harmless m = true -> z <> 0%Z -> field_complete (flow_fun m d g) z.
+Proof. exact harmless_flow_complete. Qed.
+
+(** ... and [p or default] exactly on those (or when the default is the falsy value itself). *)
+Theorem c09_or_default_complete_iff : forall d g z,
+  field_complete (flow_fun FOrDefault d g) z <-> (z <> 0%Z \/ d = 0%Z).
+Proof. exact flow_ordefault_complete_iff. Qed.
+
+Theorem c09_or_default_falsy_observable_refuted : forall d g, d <> 0%Z -> ~ field_complete (flow_fun FOrDefault d g) 0%Z.
+Proof. exact or_default_falsy_observable. Qed.
+
+(** The flow census refines the round-2 source census: lossless flows induce matching sources, so the round-2
+    theorems ([c09_sources_fields_rel], [c09_census_src_copy_independent]) apply to the induced source map. *)
+Theorem c09_args_lossless_sources_match : forall c fl,
+  copy_args_lossless c fl = true -> nodupb (names c) = true -> copy_sources_match c (flow_sources fl) = true.
+Proof. exact lossless_sources_match. Qed.
+
+(** The shape of seeded fault c09_4 ([Output(..., only_once=self.only_once)]): rejected, the field named, really lossy
+    (times = 3 comes back as -1) and invisible on the two values Hammer writes (1 and -1). *)
+Theorem c09_only_once_argument_lossy_refuted :
+  copy_args_lossless oo_census oo_flows = false /\ lossy_fields oo_census oo_flows = ["times"%string] /\
+  copy_args_lossless oo_census_claims_share oo_flows = false /\
+  copy_args_lossless oo_census_claims_share oo_flows_good = true /\
+  field_complete once_fn 1%Z /\ field_complete once_fn (-1)%Z /\ ~ field_complete once_fn 3%Z.
+Proof. exact only_once_argument_lossy. Qed.
+
+Definition all_args_lossless : bool :=
+  forallb (fun p => match lookup (fst p) all_flows with
+                    | Some fl => copy_args_lossless (snd p) fl
+                    | None => false end) all_census.
+
+Theorem c09_all_classes_args_lossless : all_args_lossless = true ->
+  forall label c, In (label, c) all_census ->
+  exists fl, lookup label all_flows = Some fl /\ copy_args_lossless c fl = true.
+Proof.
+  unfold all_args_lossless. rewrite forallb_forall. intros H label c Hin. specialize (H _ Hin). cbn [fst snd] in H.
+  destruct (lookup label all_flows) as [fl|] eqn:E; [|discriminate]. exists fl. split; [reflexivity | exact H].
+Qed.
+
+(** ROUND 3 — THE WHOLE PROPERTY FOR ONE COPY METHOD, over the observation the property speaks of (the export =
+    masked unfolding): the frame theorem holds for the masked observation too, and the three strands compose.
+    If the census of a class is fresh, built from its own source fields and covers everything export reads, and the
+    copy's fields are related to the original's as the census says, then
+      (1) the copy exports like the original,
+      (2) after EVERY mutation history through the copy the original still exports as before the copy was made,
+      (3) after EVERY mutation history through the original the copy still exports like the original did when copied. *)
+Theorem c09_frame_masked_observation : forall (mk : loc -> list bool) ms h R h' R' a,
+  closed h -> alloc h a -> roots_alloc h R -> sep h a R -> steps (h, R) ms (h', R') ->
+  forall n, munfold mk n h' (VRef a) = munfold mk n h (VRef a).
+Proof. exact frame_masked_observation. Qed.
+
+Theorem c09_copy_complete_and_independent :
+  forall (mk : loc -> list bool) (c : census) (s : srcmap) (reads : list string) h h' la lc nd nd',
+  closed h -> closed h' -> extends h h' -> h la = Some nd -> h lc = None -> h' lc = Some nd' ->
+  nmut nd' = nmut nd -> mk la = obs_mask c reads -> mk lc = obs_mask c reads ->
+  List.length (nfields nd) = List.length c ->
+  copy_fresh_mutables c = true -> copy_sources_match c s = true -> copy_export_ok c s reads = true ->
+  kinds_rel h c (nfields nd) ->
+  fields_rel_src h h' (nfields nd) (resolve c s) (nfields nd') ->
+  fields_rel_c mk h h' (nfields nd) (eresolve c s reads) (nfields nd') ->
+  mobs_eq mk h h' (VRef la) (VRef lc) /\
+  (forall ms h'' R, steps (h', [lc]) ms (h'', R) -> forall n, munfold mk n h'' (VRef la) = munfold mk n h (VRef la)) /\
+  (forall ms h'' R, steps (h', [la]) ms (h'', R) -> forall n, munfold mk n h'' (VRef lc) = munfold mk n h (VRef la)).
+Proof. exact copy_complete_and_independent. Qed.
+
+Theorem c09_copy_complete_and_independent_not_vacuous :
+  let h := ex_h in let h' := ex_h' 7%Z in
+  mobs_eq ex_mk h h' (VRef 1%positive) (VRef 2%positive) /\
+  (forall ms h'' R, steps (h', [2%positive]) ms (h'', R) ->
+     forall n, munfold ex_mk n h'' (VRef 1%positive) = munfold ex_mk n h (VRef 1%positive)) /\
+  (forall ms h'' R, steps (h', [1%positive]) ms (h'', R) ->
+     forall n, munfold ex_mk n h'' (VRef 2%positive) = munfold ex_mk n h (VRef 1%positive)).
+Proof. exact copy_complete_and_independent_applies. Qed.
+
+(** Completeness does not imply independence: a copy sharing a mutable field passes the export and source checks,
+    exports equally at copy time, fails [copy_fresh_mutables] — and one store through the copy changes the original. *)
+Theorem c09_complete_but_shared_refuted :
+  copy_export_ok sh_census sh_src sh_reads = true /\ copy_sources_match sh_census sh_src = true /\
+  copy_fresh_mutables sh_census = false /\
+  mobs_eq sh_mk sh_h sh_h' (VRef 1%positive) (VRef 2%positive) /\
+  exists h'', steps (sh_h', [2%positive]) [MStore 3%positive [VAtom 0%Z]] (h'', [2%positive]) /\
+              munfold sh_mk 2 h'' (VRef 1%positive) <> munfold sh_mk 2 sh_h (VRef 1%positive).
+Proof. exact complete_but_shared_refuted. Qed.
+
+(** ... for every copy method of the generated table at once: the three table-level booleans (each an instance
+    obligation of the check) give, for every census, the whole statement above. *)
+Theorem c09_all_classes_complete_and_independent :
+  all_fresh = true -> all_sources_match = true -> all_export_ok = true ->
+  forall label c, In (label, c) all_census ->
+  exists s cls reads, lookup label all_sources = Some s /\ lookup label class_of_label = Some cls /\
+    lookup cls all_export_reads = Some reads /\
+    forall (mk : loc -> list bool) h h' la lc nd nd',
+      closed h -> closed h' -> extends h h' -> h la = Some nd -> h lc = None -> h' lc = Some nd' ->
+      nmut nd' = nmut nd -> mk la = obs_mask c reads -> mk lc = obs_mask c reads ->
+      List.length (nfields nd) = List.length c ->
+      kinds_rel h c (nfields nd) ->
+      fields_rel_src h h' (nfields nd) (resolve c s) (nfields nd') ->
+      fields_rel_c mk h h' (nfields nd) (eresolve c s reads) (nfields nd') ->
+      mobs_eq mk h h' (VRef la) (VRef lc) /\
+      (forall ms h'' R, steps (h', [lc]) ms (h'', R) -> forall n, munfold mk n h'' (VRef la) = munfold mk n h (VRef la)) /\
+      (forall ms h'' R, steps (h', [la]) ms (h'', R) -> forall n, munfold mk n h'' (VRef lc) = munfold mk n h (VRef la)).
+Proof.
+  intros Hfr Hsm Hex label c Hin.
+  destruct (c09_all_classes_export_ok Hex label c Hin) as (s & cls & reads & E1 & E2 & E3 & Hok).
+  exists s, cls, reads. repeat (split; [assumption|]).
+  assert (Hf : copy_fresh_mutables c = true).
+  { unfold all_fresh in Hfr. rewrite forallb_forall in Hfr. exact (Hfr _ Hin). }
+  assert (Hs : copy_sources_match c s = true).
+  { unfold all_sources_match in Hsm. rewrite forallb_forall in Hsm. specialize (Hsm _ Hin). cbn [fst snd] in Hsm.
+    unfold lookup in E1. destruct (find (fun q => String.eqb (fst q) label) all_sources) as [q|]; [|discriminate].
+    cbn in E1. inversion E1; subst s. exact Hsm. }
+  intros. eapply c09_copy_complete_and_independent; eauto.
+Qed.
+
+(** ROUND 3 — THE CENSUS ROWS HOLD ON REAL OBJECT GRAPHS (kernel-checked certificate).  The census theorems take as
+    premise that the copy's fields are related to the original's as the rows say ([fields_rel_src]) and that the
+    original's fields have the declared kinds ([kinds_rel]).  [row_cert_ok] DECIDES these premises on a finite heap
+    exported from real srctools objects (original + copy, the original's part marked old) against the generated census
+    and source tables; the check evaluates it in the kernel for generated objects of every census label.  An accepted
+    heap satisfies every premise of [c09_census_src_copy_independent], hence its conclusion. *)
+Theorem c09_row_cert_premises : forall l' old la lc SB c s,
+  row_cert_ok l' old la lc SB c s = true ->
+  let h' := hof (mk_heap l') in let h := hold (mk_heap l') (mk_set old) in
+  closed h /\ closed h' /\ extends h h' /\
+  exists nd nd', h la = Some nd /\ h lc = None /\ h' lc = Some nd' /\
+                 kinds_rel h c (nfields nd) /\ fields_rel_src h h' (nfields nd) (resolve c s) (nfields nd').
+Proof. exact row_cert_premises. Qed.
+
+Theorem c09_row_cert_sound : forall l' old la lc SB c s,
+  row_cert_ok l' old la lc SB c s = true ->
+  copy_fresh_mutables c = true -> copy_sources_match c s = true ->
+  let h' := hof (mk_heap l') in
+  (forall ms h'' R, steps (h', [lc]) ms (h'', R) -> forall n, unfold n h'' (VRef la) = unfold n h' (VRef la)) /\
+  (forall ms h'' R, steps (h', [la]) ms (h'', R) -> forall n, unfold n h'' (VRef lc) = unfold n h' (VRef lc)).
+Proof. exact row_cert_sound. Qed.
+
+(** The checker accepts a faithful two-field copy and rejects a copy that shares the vector / changes the number. *)
+Theorem c09_row_cert_not_vacuous :
+  row_cert_ok [(1, Node true [VAtom 5; VRef 3]); (3, Node true [VAtom 255]);
+               (2, Node true [VAtom 5; VRef 4]); (4, Node true [VAtom 255])]%positive
+              [1; 3]%positive 1%positive 2%positive [2; 4]%positive rc_census rc_sources = true /\
+  row_cert_ok [(1, Node true [VAtom 5; VRef 3]); (3, Node true [VAtom 255]); (2, Node true [VAtom 5; VRef 3])]%positive
+              [1; 3]%positive 1%positive 2%positive [2; 3]%positive rc_census rc_sources = false /\
+  row_cert_ok [(1, Node true [VAtom 5; VRef 3]); (3, Node true [VAtom 255]);
+               (2, Node true [VAtom 6; VRef 4]); (4, Node true [VAtom 255])]%positive
+              [1; 3]%positive 1%positive 2%positive [2; 4]%positive rc_census rc_sources = false.
+Proof. exact (conj row_cert_accepts (conj row_cert_rejects_shared row_cert_rejects_changed_value)). Qed.
+
+(** ROUND 3 — THE COMPLETENESS PREMISES AND THE WHOLE PROPERTY ON REAL OBJECT GRAPHS (kernel-checked).  [mobs_eq] speaks
+    about every depth; it is decided by comparing the masked unfoldings at one depth at which both have stabilised. *)
+Theorem c09_mobs_eq_decided : forall (mk : loc -> list bool) N h h' v v',
+  mobs_eq_b mk N h h' v v' = true -> mobs_eq mk h h' v v'.
+Proof. exact mobs_eq_b_sound. Qed.
+
+(** The export masks of the labelled nodes of an exported heap, COMPUTED IN THE KERNEL from the generated tables (the
+    harness only says which census label each exported object has). *)
+Definition masks_of_labels (labels : list (loc * string)) : list (loc * list bool) :=
+  map (fun p => (fst p,
+        match lookup (snd p) all_census, lookup (snd p) class_of_label with
+        | Some c, Some cls => match lookup cls all_export_reads with Some r => obs_mask c r | None => [] end
+        | _, _ => []
+        end)) labels.
+
+(** An accepted completeness certificate (heap exported from a real original + copy, export masks of every labelled
+    node from the generated reads tables) + the census obligation ⟹ the real copy is observed equal at every depth. *)
+Theorem c09_export_cert_sound : forall l' old la lc masks N c s reads,
+  export_cert_ok l' old la lc masks N c s reads = true ->
+  copy_export_ok c s reads = true ->
+  mobs_eq (mk_of (mk_masks masks)) (hold (mk_heap l') (mk_set old)) (hof (mk_heap l')) (VRef la) (VRef lc).
+Proof. exact export_cert_sound. Qed.
+
+(** Both certificates on the same exported heap + the three census obligations of the class: THE WHOLE PROPERTY for
+    that real (original, copy) pair — instance of [c09_copy_complete_and_independent] with every premise discharged
+    inside the kernel. *)
+Theorem c09_real_copy_complete_and_independent : forall l' old la lc SB masks N c s reads,
+  row_cert_ok l' old la lc SB c s = true ->
+  export_cert_ok l' old la lc masks N c s reads = true ->
+  copy_fresh_mutables c = true -> copy_sources_match c s = true -> copy_export_ok c s reads = true ->
+  let mk := mk_of (mk_masks masks) in let h' := hof (mk_heap l') in let h := hold (mk_heap l') (mk_set old) in
+  mobs_eq mk h h' (VRef la) (VRef lc) /\
+  (forall ms h'' R, steps (h', [lc]) ms (h'', R) -> forall n, munfold mk n h'' (VRef la) = munfold mk n h (VRef la)) /\
+  (forall ms h'' R, steps (h', [la]) ms (h'', R) -> forall n, munfold mk n h'' (VRef lc) = munfold mk n h (VRef la)).
+Proof. exact real_copy_complete_and_independent. Qed.
+
+(** The completeness checker accepts a faithful copy (new id invisible), rejects a copy whose vector differs, and
+    rejects (never wrongly accepts) a comparison depth at which the unfolding has not stabilised. *)
+Theorem c09_export_cert_not_vacuous :
+  let L v := [(1, Node true [VAtom 10; VAtom 5; VRef 3]); (3, Node true [VAtom 255]);
+              (2, Node true [VAtom 11; VAtom 5; VRef 4]); (4, Node true [VAtom v])]%positive in
+  let M := [(1%positive, obs_mask xc_census xc_reads); (2%positive, obs_mask xc_census xc_reads)] in
+  export_cert_ok (L 255%Z) [1; 3]%positive 1%positive 2%positive M 4 xc_census xc_sources xc_reads = true /\
+  export_cert_ok (L 128%Z) [1; 3]%positive 1%positive 2%positive M 4 xc_census xc_sources xc_reads = false /\
+  export_cert_ok (L 255%Z) [1; 3]%positive 1%positive 2%positive M 0 xc_census xc_sources xc_reads = false.
+Proof. cbv zeta. exact (conj export_cert_accepts (conj export_cert_rejects_changed_vector export_cert_rejects_unstable_depth)). Qed.
